@@ -31,3 +31,119 @@ CONTRACTS = {
 GROUND = []
 BOUNDED = []
 CLASSES = {}
+
+# ---------------------------------------------------------------- Counter objects on a real Context
+import random as _random
+
+
+def _mk_context(spec):
+    """spec: list of (name, resetby or None, value)."""
+    from plasTeX.Context import Context
+    ctx = Context(load=False)
+    for nm, rb, val in spec:
+        ctx.counters[nm] = plasTeX.Counter(ctx, nm, rb, val)
+    return ctx
+
+
+def _within(spec, c, top):
+    rb = dict((n, r) for n, r, _ in spec)
+    seen = set()
+    cur = c
+    while rb.get(cur):
+        if rb[cur] == top:
+            return True
+        cur = rb[cur]
+        if cur in seen or cur not in rb:
+            return False
+        seen.add(cur)
+    return False
+
+
+def check_step(w):
+    spec, who, op, arg = w['spec'], w['who'], w['op'], w.get('arg', 0)
+    ctx = _mk_context(spec)
+    c = ctx.counters[who]
+    old = dict((n, v) for n, _, v in spec)
+    if op == 'step':
+        c.stepcounter(); exp_self = old[who] + 1
+    elif op == 'set':
+        c.setcounter(arg); exp_self = arg
+    elif op == 'add':
+        c.addtocounter(arg); exp_self = old[who] + arg
+    else:
+        c.resetcounters(); exp_self = old[who]
+    for n, _, _ in spec:
+        got = ctx.counters[n].value
+        if n == who:
+            exp = exp_self
+        else:
+            exp = 0 if (who != '' and _within(spec, n, who)) else old[n]
+        if got != exp:
+            return False, 'after %s on %r: counter %r = %r, expected %r (spec %r)' % (op, who, n, got, exp, spec)
+    return True, ''
+
+
+def gen_forest(rng):
+    n = rng.randrange(1, 7)
+    names = ['c%d' % i for i in range(n)]
+    spec = []
+    for i, nm in enumerate(names):
+        rb = rng.choice([None] + names[:i]) if i else None     # parent has a smaller index: acyclic
+        if rng.random() < 0.1:
+            rb = 'nosuch'
+        spec.append((nm, rb, rng.randrange(0, 9)))
+    rng.shuffle(spec)
+    return dict(spec=spec, who=rng.choice(names), op=rng.choice(['step', 'set', 'add', 'reset']), arg=rng.randrange(-3, 9))
+
+
+def check_alph(w):
+    from plasTeX.Context import Context
+    ctx = Context(load=False)
+    c = plasTeX.Counter(ctx, 'x', None, w['v'])
+    v = w['v']
+    ok = c.Alph == chr(64 + v) and c.alph == chr(96 + v) and c.arabic == str(v) and c.Roman == ROMAN(v) \
+        and c.roman == ROMAN(v).lower() and c.fnsymbol == '*' * v
+    return ok, 'representations of %d: %r' % (v, (c.Alph, c.alph, c.arabic, c.Roman, c.roman, c.fnsymbol))
+
+
+for _nm in ('Counter.resetcounters', 'Counter.stepcounter', 'Counter.setcounter', 'Counter.addtocounter'):
+    CONTRACTS[_nm] = dict(check=check_step, gen=gen_forest)
+for _nm in ('Counter.Alph', 'Counter.alph', 'Counter.arabic', 'Counter.Roman', 'Counter.roman', 'Counter.fnsymbol'):
+    CONTRACTS[_nm] = dict(check=check_alph, small=lambda: ({'v': v} for v in range(1, 27)))
+
+LATEX_CHAINS = [('subsubparagraph', 'subparagraph'), ('subparagraph', 'paragraph'), ('paragraph', 'subsubsection'),
+                ('subsubsection', 'subsection'), ('subsection', 'section'), ('section', 'chapter'),
+                ('enumii', 'enumi'), ('enumiii', 'enumii'), ('enumiv', 'enumiii')]
+BOOK_ONLY = [('equation', 'chapter'), ('figure', 'chapter'), ('table', 'chapter')]
+
+
+def ground_hierarchy():
+    """Declared within-relation after ProcessOptions: contains LaTeX's chains and is acyclic (precondition of resetcounters)."""
+    from plasTeX.TeX import TeX
+    n = 0
+    for cls in ('book', 'report', 'article'):
+        t = TeX()
+        t.input('\\documentclass{%s}\\begin{document}x\\end{document}' % cls)
+        d = t.parse()
+        cs = d.context.counters
+        rel = dict((k, v.resetby) for k, v in cs.items())
+        for k, v in cs.items():
+            n += 1
+            if v.name != k or v.counters is not cs:
+                return False, n, 'counter table not well formed at %r in %s' % (k, cls)
+        for a, b in LATEX_CHAINS + (BOOK_ONLY if cls != 'article' else []):
+            n += 1
+            if rel.get(a) != b:
+                return False, n, '%s: %s should be within %s, is within %r' % (cls, a, b, rel.get(a))
+        for k in rel:                      # acyclic: following resetby from every counter terminates
+            seen, cur = set(), k
+            while rel.get(cur):
+                n += 1
+                if cur in seen:
+                    return False, n, '%s: within-relation has a cycle through %r' % (cls, cur)
+                seen.add(cur)
+                cur = rel[cur]
+    return True, n, ''
+
+
+GROUND.append(('ground/counter-hierarchy', 'declared within-relation of book/report/article contains LaTeX chains, acyclic, table well formed', ground_hierarchy))
